@@ -64,7 +64,9 @@ COV_FORMS = ["1/{p}", "1.0/{p}", "{p}**(-1.0)", "np.divide(1.0, {p})"]
 PREC_FORMS = ["{p}", "1.0*{p}", "{p}+0.0", "{p}*np.ones({m})"]
 PNAMES = ["s", "d", "tau", "lam_1"]
 ALPHAS = [1.0, 0.3, 2.5, 12.0]
-BETAS = [1e-4, 0.5, 3.0, 40.0]
+BETAS = [1e-4, 0.5, 3.0, 40.0, 1e-10, 1e6]
+
+NEAR_EPS = ["1e-12", "1e-09", "1e-07", "1e-05", "0.001"]
 
 # structure -> (family, spec)   [which of them are wrongly *sampled* by the legacy interface is not encoded here]
 REJECT_STRUCTS = [
@@ -78,7 +80,11 @@ REJECT_STRUCTS = [
     "not_posterior_gamma", "not_posterior_gaussian", "not_posterior_joint",
 ] + [f"occ2_{carrier}_{fam}"      # second occurrence (in the mean) carried by a callable that is not a plain function
      for carrier in ("partial", "jointpartial", "model", "linearmodel", "instance", "bound")
-     for fam in ("cov", "prec", "gmrf")]
+     for fam in ("cov", "prec", "gmrf")] + [
+    f"near_{form}_{fam}_{eps}"      # dependences that miss the supported form by eps (variance floor, jitter, rounding of a scale)
+    for form, fams in (("recipplus", ("cov",)), ("recipshift", ("cov",)), ("recipscale", ("cov",)),
+                       ("idplus", ("prec", "gmrf")), ("idscale", ("prec", "gmrf")))
+    for fam in fams for eps in NEAR_EPS]
 
 DIRECT_FAMILIES = [
     "Gaussian_scalarcov", "Gaussian_veccov", "Gaussian_fullcov", "Gaussian_prec", "Gaussian_sqrtprec", "Gaussian_sqrtcov",
@@ -102,7 +108,7 @@ def cases(tier, seed):
             forms = COV_FORMS if param == "cov" else PREC_FORMS
             for fi in range(len(forms)):
                 for con in constructions:
-                    for data in ("random", "equal_mean", "large", "sparse"):
+                    for data in ("random", "equal_mean", "large", "sparse", "tiny", "huge"):
                         m = rnd.choice([1, 2, 3, 5, 8, 17, 40] if tier == "quick" else [1, 2, 3, 5, 8, 17, 40, 120])
                         if con != "direct" and m == 1:
                             m = 2
@@ -116,7 +122,7 @@ def cases(tier, seed):
             for bc in ("zero", "periodic", "neumann"):
                 for order in (0, 1, 2):
                     for con in ("direct", "joint"):
-                        for data in ("random", "nullspace", "sparse") if con == "direct" else ("random", "sparse"):
+                        for data in ("random", "nullspace", "sparse", "tiny", "huge") if con == "direct" else ("random", "sparse"):
                             N = rnd.choice([4, 5, 7, 12, 25] if pd == 1 else [4, 5, 6]) if tier == "quick" else \
                                 rnd.choice([4, 5, 7, 12, 25, 60] if pd == 1 else [4, 5, 6, 9])
                             out.append({"kind": "conj", "family": "gmrf", "bc": bc, "order": order, "pd": pd, "N": N,
@@ -399,8 +405,8 @@ def _build_conj(case, rs):
             data = mean_vec + 2.0 * v / max(np.linalg.norm(v), 1e-12)
         else:
             data = mean_vec.copy()
-    elif case["data"] == "sparse":
-        data = _data("sparse", mean_vec, rs)
+    elif case["data"] in ("sparse", "tiny", "huge"):
+        data = _data(case["data"], mean_vec, rs)
     else:
         data = mean_vec + rs.standard_normal(n) * float(rs.choice([0.1, 1.0, 5.0]))
     if case["construction"] == "direct":
@@ -424,6 +430,10 @@ def _data(kind, mean_vec, rs):
         return mean_vec.copy()
     if kind == "large":
         return mean_vec + rs.standard_normal(m) * 30.0
+    if kind == "tiny":      # almost noise-free: residuals 1e-6 (bulk of the conditional at s ~ 1e12 unless beta dominates)
+        return mean_vec + rs.standard_normal(m) * 1e-6
+    if kind == "huge":      # residuals 1e5 (bulk at s ~ 1e-10)
+        return mean_vec + rs.standard_normal(m) * 1e5
     if kind == "sparse":    # exact zeros among the data (len(b) vs number of non-zeros)
         d = mean_vec + rs.standard_normal(m)
         d[rs.uniform(size=m) < 0.5] = 0.0
@@ -614,6 +624,8 @@ def _build_reject(case, rs):
     elif st == "lik_lmrf": lik = lambda: D.LMRF(np.zeros(m), lambda s: 1 / s, geometry=m, name="y")
     elif st == "lik_cauchy": lik = lambda: D.Cauchy(np.zeros(m), lambda s: 1 / s, name="y")
     elif st == "lik_lognormal": lik = lambda: D.Lognormal(np.zeros(m), lambda s: 1 / s, name="y")
+    elif st.startswith("near_"):
+        return _build_near(case, rs)
     elif st.startswith("occ2_"):
         return _build_occ2(case, rs, data, gam)
     elif st == "not_posterior_gamma":
@@ -627,6 +639,32 @@ def _build_reject(case, rs):
     if st == "lik_lognormal":
         data = np.abs(data) + 0.1
     return lambda: D.Posterior(lik().to_likelihood(data), prior())
+
+
+def _build_near(case, rs):
+    """cov / prec that misses the supported form by eps, with data and prior scaled so that the miss matters:
+    the bulk of the conditional lies where 1/s ~ eps (variance floor) resp. s ~ eps (precision floor)."""
+    import cuqi
+    D = cuqi.distribution
+    _, form, fam, eps_s = case["structure"].split("_")
+    eps = float(eps_s)
+    m = max(case["m"], 4)
+    fn = {"recipplus": lambda s: 1 / s + eps, "recipshift": lambda s: 1 / (s + eps), "recipscale": lambda s: (1 + eps) / s,
+          "idplus": lambda s: s + eps, "idscale": lambda s: s * (1 + eps)}[form]
+    if form == "recipplus":
+        std, beta = 0.3 * np.sqrt(eps), 1e-3 * eps
+    elif form in ("recipshift", "idplus"):
+        std, beta = 3.0 / np.sqrt(eps), 1.0
+    else:
+        std, beta = float(rs.choice([1e-5, 1.0, 1e4])), case["beta"]
+    data = rs.standard_normal(m) * std
+    alpha = case["alpha"]
+    def build():
+        lik = D.GMRF(np.zeros(m), fn, geometry=m, name="y") if fam == "gmrf" else D.Gaussian(np.zeros(m), **{fam: fn}, name="y")
+        return D.Posterior(lik.to_likelihood(data), D.Gamma(alpha, beta, name="s"))
+    build.gibbs = None
+    build.extra_cfg = {"near_form": form, "near_fam": fam, "eps": eps_s}
+    return build
 
 
 class _Scaler:
@@ -728,7 +766,7 @@ def _run_reject(case, ctx, rs):
     fit = status = None
     with Monitor() as mon:
         for interface, route in (("experimental", "construct"), ("experimental", "reset"), ("legacy", "construct")):
-            cfg = {"kind": "reject", "interface": interface, "structure": st, "route": route}
+            cfg = {"kind": "reject", "interface": interface, "structure": st, "route": route, **getattr(builder, "extra_cfg", {})}
             mon.take()
             def go():
                 if interface == "experimental" and route == "construct":
@@ -771,7 +809,8 @@ def _run_reject(case, ctx, rs):
             ctx.count("accepted_draws_judged", len(drawn))
             if exact:
                 ctx.count("accepted_and_exact")
-                ctx.nontrivial(interface + ":accepted_exact")
+                if not st.startswith("near_") or "scale" in st:     # a near-miss whose miss is not measurable proves nothing
+                    ctx.nontrivial(interface + ":accepted_exact")
             else:
                 why = status if fit is None else (f"target logd reads shape={fit['shape']:.8g}, rate={fit['rate']:.8g}, non-Gamma residual "
                                                   f"{fit['resid']:.2e} of scale {fit['scale']:.3g}")
